@@ -79,8 +79,9 @@ def regenerate(names):
             text = mod.generate()
         except Exception as exc:  # fail closed
             errors[name] = f"{type(exc).__name__}: {exc}"
-            if target.exists():
-                target.unlink()
+            for stale in (target, target.with_suffix(".vo"), target.with_suffix(".glob")):
+                if stale.exists():
+                    stale.unlink()
             continue
         write_if_changed(target, text)
         errors[name] = None
